@@ -261,9 +261,9 @@ Proof.
 Qed.
 
 Lemma chain_snoc (st : store) r a g cp :
-  chain {| s_com := s_com st; s_tail := s_tail st ++ [(r, true)]; s_allowed := a; s_ghost := g; s_cap := cp |}
+  chain {| s_com := s_com st; s_tail := s_tail st ++ [r]; s_allowed := a; s_ghost := g; s_cap := cp |}
   = chain st ++ [r].
-Proof. unfold chain. cbn [s_com s_tail]. rewrite live_app, app_assoc. reflexivity. Qed.
+Proof. unfold chain. cbn [s_com s_tail]. rewrite app_assoc. reflexivity. Qed.
 
 Lemma pre_id_len st : pre_id st = lenN (chain st).
 Proof. reflexivity. Qed.
@@ -274,7 +274,7 @@ Lemma deliver_ok st skip j p tr b st' :
 Proof.
   intros [I1 I2] En Ex Er.
   unfold replicate in Er. destruct (precheck H c skip st b) as [k| |] eqn:Ep; cbn [bind] in Er; try discriminate.
-  unfold perform in Er. destruct (s_cap st <=? lenN (live (s_tail st))); try discriminate.
+  unfold perform in Er. destruct (s_cap st <=? lenN (s_tail st)); try discriminate.
   inversion Er; subst st'; clear Er.
   destruct (deliver_rec st skip j p tr b k En Ex Ep) as (Kh & Kid & M).
   set (r := new_rec H st k) in *.
@@ -282,7 +282,7 @@ Proof.
   apply Inv_may_commit. split.
   - rewrite chain_snoc. apply ids_snoc; auto.
   - intros x Hx. rewrite chain_snoc in Hx. unfold physical in Hx. cbn [s_tail s_ghost] in Hx.
-    rewrite map_app, app_nil_r in Hx. simpl in Hx.
+    rewrite app_nil_r in Hx.
     destruct Hx as [Hx|Hx]; apply in_app_or in Hx as [Hx|Hx].
     + apply I2; auto.
     + destruct Hx as [<-|[]]; auto.
@@ -321,15 +321,17 @@ Proof.
   intros [I1 I2] E. unfold discard in E.
   destruct (t =? 0); try discriminate. destruct (t <=? com_id st); try discriminate.
   destruct (pre_id st <? t); inversion E; subst; clear E; [split; auto|].
-  assert (Ec : chain {| s_com := s_com st; s_tail := kill_last (N.to_nat (pre_id st + 1 - t)) (s_tail st);
-                        s_allowed := s_allowed st; s_ghost := s_ghost st; s_cap := s_cap st |}
-               = firstn (length (s_com st) + (length (live (s_tail st)) - N.to_nat (pre_id st + 1 - t))) (chain st)).
-  { unfold chain. cbn [s_com s_tail]. rewrite kill_last_live. rewrite firstn_app_2. reflexivity. }
+  set (m := (length (s_tail st) - N.to_nat (pre_id st + 1 - t))%nat).
+  assert (Ec : chain {| s_com := s_com st; s_tail := firstn m (s_tail st);
+                        s_allowed := s_allowed st; s_ghost := []; s_cap := s_cap st |}
+               = firstn (length (s_com st) + m) (chain st)).
+  { unfold chain. cbn [s_com s_tail]. rewrite firstn_app_2. reflexivity. }
   split.
   - rewrite Ec. apply ids_firstn; auto.
   - intros r [I|I]; apply I2.
     + left. rewrite Ec in I. eapply In_firstn; eauto.
-    + right. unfold physical in *. cbn [s_tail s_ghost] in I. rewrite kill_last_fst in I. exact I.
+    + right. unfold physical in *. cbn [s_tail s_ghost] in I. rewrite app_nil_r in I.
+      apply in_or_app. left. eapply In_firstn; eauto.
 Qed.
 
 Lemma restart_inv st : Inv st -> Inv (restart H c st).
@@ -344,12 +346,11 @@ Proof.
   { intros i r E. rewrite Hb in E.
     eapply reload_ids; eauto. }
   apply Inv_may_commit. split.
-  - unfold chain. cbn [s_com s_tail]. rewrite live_all. intros i r E.
+  - unfold chain. cbn [s_com s_tail]. intros i r E.
     destruct (Nat.lt_ge_cases i (length (s_com st))) as [L|L].
     + rewrite nth_error_app1 in E by auto. apply I1. unfold chain. rewrite nth_error_app1; auto.
     + rewrite nth_error_app2 in E by auto. apply Bid in E. rewrite E. unfold com_id, lenN. lia.
-  - unfold chain, physical. cbn [s_com s_tail s_ghost]. rewrite live_all.
-    rewrite map_map. cbn [fst]. rewrite map_id.
+  - unfold chain, physical. cbn [s_com s_tail s_ghost].
     intros r [I|I]; apply in_app_or in I as [I|I].
     + apply I2. left. unfold chain. apply in_or_app; auto.
     + apply Bin; auto.
